@@ -8,6 +8,7 @@ CONSTANTS
   EasePool <- EasesA
   TimingPool <- TimingsA
   Seed = 1
+  PosPool <- AllPos
   NRand = 6000
 INVARIANTS RefinesR Emit
 CHECK_DEADLOCK FALSE
